@@ -217,6 +217,24 @@ def run_c08(tier, seed):
             oc.nontrivial.add(h)
             if len(oc.samples) < 5 and len(oc.nontrivial) % 211 == 1:
                 oc.samples.append({'label': lbl, 'text': text[:600], 'outcome': base})
+    # the outcome is a function of the document alone: every document again, twice, in shuffled order
+    # (whatever was classified before must not matter)
+    first = {}
+    for (lbl, _), text, r in zip(docs, texts, resps):
+        first.setdefault(text, (lbl, r['spec']))
+    order = list(first)
+    for rnd in range(2):
+        rng.shuffle(order)
+        for text in order:
+            lbl, spec = first[text]
+            got = classify_impl(text, 'string', 'ignore')
+            oc.evaluations += 1
+            oc.in_domain += 1
+            if got != spec:
+                oc.failing.append({'kind': 'classify', 'text': text, 'label': lbl + f' (re-classified in shuffled order, round {rnd})',
+                                   'spec': 'the class depends on the document alone, not on what was classified before', 'expected': spec, 'impl': got,
+                                   'preceding': order[max(0, order.index(text) - 3):order.index(text)]})
+    oc.count('reclassified-shuffled', 2 * len(order))
     # encodings: the same document as bytes in other encodings, as a file, and as str
     enc_n = 0
     for enc, decl in (('iso-8859-1', '<?xml version="1.0" encoding="ISO-8859-1"?>'), ('utf-16', '<?xml version="1.0" encoding="UTF-16"?>'),
@@ -280,6 +298,8 @@ def replay(pid, fl):
         bad = any(v != fl['expected'] for v in got.values())
     else:
         text = fl['text']
+        for prev in fl.get('preceding', []):
+            classify_impl(prev, 'string', 'ignore')
         ok = expat_ok(text)
         obs = {f: classify_impl(text, 'string', f) for f in ('ignore', 'default', 'error')}
         obs['file'] = classify_impl(text, 'file', 'error')
